@@ -32,7 +32,10 @@ func c18Cases(c runCfg) ([]*scratch.Pkg, []string, map[string]interface{}) {
 	grp := 0
 	nReq, nResp := 0, 0
 	for gi := 0; gi < ngroups; gi++ {
+		// every other document is reference-rich: all primitive properties and items of its bodies are components
+		c14RefAllPrims = gi%2 == 0
 		rc, ops := c14Package(rng, gi)
+		c14RefAllPrims = false
 		inl := rc.Spec.InlineAll()
 		hoi, names := rc.Spec.HoistAll()
 		variants := []struct {
